@@ -295,6 +295,14 @@ namespace
         s.length = std::vector<double>{8e5, 3.5e5, 2e5}[d[14]];     // short slabs: the taper zone reaches above the coupling depth
         v.push_back(s);
       }
+    // full product over the coordinates that decide where along the slab the coupling depth, the taper and the tip lie relative to each other
+    for (double len : {8e5, 4e5, 2e5}) for (double cpl : {8e4, 0.0, 2e5}) for (double tap : {1e5, 0.0, 3.5e5}) for (double vs : {0.05, 0.01, 0.1}) for (double rx : {-4e6, -2e5, -1.2e7}) for (double dip : {45.0, 30.0, 60.0})
+              {
+                int ndev = (len != 8e5) + (cpl != 8e4) + (tap != 1e5) + (vs != 0.05) + (rx != -4e6) + (dip != 45.0);
+                if (ndev <= 2 && !th) continue;      // already in the deviation-bounded part (the thorough tier varies other values there)
+                Slab s; s.length = len; s.coupling = cpl; s.taper = tap; s.vsub = vs; s.ridge_x = rx; s.dip = dip;
+                v.push_back(s);
+              }
     return v;
   }
 
@@ -360,7 +368,7 @@ int main(int argc, char **argv)
   spec.level = "exploration";
   spec.rule = "suite oceanic: full product of model {half space, plate, constant-age plate} x (top, bottom) temperatures with top <= bottom x max depth x ridge geometry {straight, bent, two segments with transform, spherical} x spreading velocity x "
               "{uniform, varying along the ridge}; every world probed on 16 x 5 surface positions (on the ridge axis, 0.1 m / 100 m / 1 km from it, far from it, on both sides) x 43 depths. suite slabs: every parameter tuple of the mass conserving "
-              "and plate model slab temperatures within 2 | 4 deviations of a default (15 coordinates: model, dip, velocities, ridge distance, coupling depth, taper, forearc cooling, distance range, adiabatic heating, spline, curved slab, overriding plate, slab length) "
+              "and plate model slab temperatures within 2 | 4 deviations of a default (15 coordinates: model, dip, velocities, ridge distance, coupling depth, taper, forearc cooling, distance range, adiabatic heating, spline, curved slab, overriding plate, slab length), plus the full product of slab length x coupling depth x taper distance x subducting velocity x ridge distance x dip (3^6) with the other coordinates at their defaults "
               "on a 37 x 57 x 2 probe lattice. suite linear: linear models of all five feature types x range relations x boundary temperatures. non-trivial: some probe strictly between the end members";
   spec.assumptions = {"envelope of slab models: surface temperature <= T <= max(ambient temperature, background adiabat at that depth); the ambient temperature is what the same world answers when the slab has no temperature model (twin world)",
                       "comparisons are written in negated form so that NaN counts as outside the envelope",
